@@ -6,7 +6,9 @@ For each seeded change: apply patch.diff to /repo (git apply), run the pinned te
 run the quick check of the property it targets (and, with --all, every quick check), then revert /repo
 (git checkout -- .). /repo must be clean when this starts. Nothing is ever committed to /repo.
 
-usage: tools/seeded.py [--all] [--tier quick|thorough] [name ...]
+usage: tools/seeded.py [--all] [--tier=thorough] [--repo=<scratch worktree>] [name ...]
+With --repo the patches are applied to that scratch checkout instead of /repo and the checks are pointed at it
+(VERIF_REPO / PYTHONPATH); README.md is only rewritten by a run over all changes against /repo itself.
 """
 import glob
 import json
@@ -28,6 +30,12 @@ def main():
     args = [a for a in sys.argv[1:] if not a.startswith("--")]
     run_all = "--all" in sys.argv
     tier = "thorough" if "--tier=thorough" in sys.argv else "quick"
+    global REPO
+    for a in sys.argv[1:]:
+        if a.startswith("--repo="):
+            REPO = a.split("=", 1)[1]
+    scratch = REPO != "/repo"
+    cenv = dict(os.environ, VERIF_REPO=REPO, PYTHONPATH=REPO) if scratch else None
     rc, out = sh("git status --porcelain -- pycaption", cwd=REPO)
     if out.strip():
         print("REFUSING: /repo has uncommitted changes")
@@ -56,7 +64,7 @@ def main():
             caught = {}
             targets = props if run_all else [meta["property"]] + meta.get("also_run", [])
             for pid in targets:
-                rc_c, out_c = sh(f"./check {pid} --tier {tier}", cwd=VERIF)
+                rc_c, out_c = sh(f"./check {pid} --tier {tier}", cwd=VERIF, env=cenv)
                 sigs = [l.split("signature:")[1].strip() for l in out_c.splitlines() if l.strip().startswith("signature:")]
                 caught[pid] = {"rc": rc_c, "violation_classes": len([l for l in out_c.splitlines() if l.startswith("VIOLATION")]), "first_signature": sigs[0] if sigs else None}
             rows.append((name, meta, tests, caught, demo, round(time.time() - t0)))
@@ -80,7 +88,7 @@ def main():
         c = ", ".join(f"{k}: exit {v['rc']} ({v['violation_classes']} classes)" for k, v in caught.items())
         sig = next((v["first_signature"] for v in caught.values() if v["first_signature"]), "")
         lines.append(f"| {name} | {meta['property']} | {meta.get('needs', '')} | {tests} | {demo} | {c} | `{sig}` |")
-    if not args:
+    if not args and not scratch:
         open(os.path.join(VERIF, "seeded", "README.md"), "w").write("\n".join(lines) + "\n")
     missed = [r[0] for r in rows if r[3] and not any(v["rc"] == 1 for v in r[3].values())]
     print("missed:", missed)
